@@ -14,7 +14,7 @@ PROP = {'modules': ['AmVerif.Props.C09', 'AmVerif.Lemmas.Fault'],
          'then edits of what was read afterwards) incl. a malformed stream (1/40). Oracle from the statement: result is err / panic / tolerated ok, a '
          'fault in the probed asset\'s own loader is always reported, every entry cached before keeps value, handle and reload id (reloads: same '
          'handle, rewritten at most once and only with a reload-id bump, the asset whose own reload was hit keeps value and id), nothing appears '
-         'under the probed key unless the call succeeded, hot_reload answers within 8 s, the retry gives the fault-free outcome. non-trivial = at '
+         'under the probed key unless the call succeeded, hot_reload answers (a dead reloader thread is detected at once through /proc/self/task, a silent one after 8 s), the retry gives the fault-free outcome. non-trivial = at '
          'least one world with an injected fault (or a recording probe); distinct = distinct transcripts',
  'assumptions': ['loaders are deterministic functions of what they read and of the cache look-ups they make',
                  'a fault is a single io::Error returned by Source::read / read_dir, or a loader returning Err / panicking at its start (script assets pass one checkpoint per invocation); '
@@ -27,7 +27,7 @@ PROP = {'modules': ['AmVerif.Props.C09', 'AmVerif.Lemmas.Fault'],
  'only around map operations and `write`, never around a loader); the reloader thread as the function hotReload / handleEvents (its scheduling is C08)',
  'amx: reloadCatchesPanic / reloadSkipsStatic / failedReloadKeepsNewDeps are recognised textually in reload_untyped; the skeletons of record, no_record, '
  'CellGuard, add_asset, reload_untyped are regenerated and compared by `rfl`',
- 'harness: WorldExec::reload_bounded runs hot_reload() on a helper thread and answers sync-timeout after 8 s (a stuck caller is leaked, not joined)']}
+ 'harness: WorldExec::reload_bounded runs hot_reload() on a helper thread and answers sync-timeout when the reloader thread has exited or after 8 s of silence (a stuck caller is leaked, not joined)']}
 
 META = {'text': 'Theorems over the loader language (every Prog, so every user loader), every environment (the source is a function of the running read index '
          'and the loader fault plan a function of the running checkpoint index: every fault plan is an Env), every fuel and every state: entries cached '
